@@ -34,6 +34,7 @@ pub fn prop() -> HistProp {
         mk: |_, _, _| Box::new(C16 { allowance_op: false, hub_burn: false }),
         extra: Some((1, |t| many_accounts_scenario_strategy(&prop().profile.clone()(t), cfg_strategy()))),
         many_batches: 0,
+        zero_arrival: 0,
     }
 }
 
